@@ -69,7 +69,7 @@ def r12_1(ctx, rc):
                                  ctx.prog.loc(F, call), key=key)
                 else:
                     rc.ok({'sink': key, 'origins': sorted(tags)}, key=key)
-    if n < 3:
+    if n < 2:
         raise AnalysisError('only %d removal sites in clean' % n)
     # the cache whose sets are used is the one read from the cache file
     for call in ctx.prog.calls_in(F):
